@@ -222,6 +222,10 @@ func (s *SimFile) WriteAt(p []byte, off int64) (int, error) {
 		if mode == "short" && len(p) > 1 {
 			n, _ = s.f.WriteAt(p[:len(p)/2], off)
 			err = &os.PathError{Op: "write", Path: s.name, Err: syscall.ENOSPC}
+		} else if mode == "shortnil" && len(p) > 1 {
+			// a File implementation (the application's, through OpenFile)
+			// that reports a short count without an error value
+			n, _ = s.f.WriteAt(p[:len(p)/2], off)
 		} else {
 			err = ErrInjectedIO
 		}
